@@ -334,9 +334,13 @@ class C05:
                     armed = call[1][0]
                     observed[i].append(("arm",))
                     continue
+                if armed is not None and call[0].startswith("consumer_"):
+                    armed = None         # (only plain CobaRandom calls are interrupted: a component call runs other code, yields to other tasks ...)
                 if armed is not None:
                     from sim import asyncexc
+                    import gc
                     _instrument_random()
+                    gc.disable()         # (a cyclic collection inside the window would finalise unrelated generators: not a function of the seed)
                     asyncexc.arm(armed)
                 try:
                     observed[i].append(("v", do_call(g, call)))
@@ -347,6 +351,7 @@ class C05:
                 finally:
                     if armed is not None:
                         fired, _ = asyncexc.disarm()
+                        gc.enable()
                         armed = None
                         if fired is not None:
                             sim.count("fault.ctrl_c_between_bytecodes_of_a_call")
